@@ -304,6 +304,11 @@ namespace bloch::compiler {
                                                  "@shots value '" + annotation->value +
                                                      "' is not a valid shot count");
                             }
+                            // like '--shots=0': a run of no shots reports nothing at all
+                            if (shotCount <= 0)
+                                throw BlochError(ErrorCategory::Semantic, annotation->line,
+                                                 annotation->column,
+                                                 "@shots value must be positive");
                             merged->shots = {true, shotCount};
                         }
                     }
